@@ -21,6 +21,7 @@ package j2t
 import (
 	"context"
 	"encoding/base64"
+	stdjson "encoding/json"
 	"fmt"
 	"strconv"
 
@@ -32,6 +33,16 @@ import (
 	"github.com/cloudwego/dynamicgo/meta"
 	"github.com/cloudwego/dynamicgo/thrift"
 )
+
+// unquoteJSON unquotes a JSON string literal.
+// NOTICE: strconv.Unquote() only knows Go syntax, it rejects valid JSON escapes like `\/` and surrogate pairs (`\ud83d\ude00`)
+func unquoteJSON(s string) (string, error) {
+	var ret string
+	if err := stdjson.Unmarshal([]byte(s), &ret); err != nil {
+		return "", err
+	}
+	return ret, nil
+}
 
 func (self *BinaryConv) doImpl(ctx context.Context, src []byte, desc *thrift.TypeDescriptor, buf *[]byte, req http.RequestGetter, top bool) (err error) {
 	return self.doGo(ctx, rt.Mem2Str(src), desc, buf, req, top)
@@ -95,7 +106,7 @@ func (self *BinaryConv) doRecurse(ctx context.Context, s string, jp int, desc *t
 		case types.V_STRING:
 			var str string
 			if v.Ep >= 0 && v.Ep < int64(ret) {
-				str, err = strconv.Unquote(s[v.Iv-1 : ret])
+				str, err = unquoteJSON(s[v.Iv-1 : ret])
 				if err != nil {
 					return
 				}
@@ -192,7 +203,7 @@ func (self *BinaryConv) doRecurse(ctx context.Context, s string, jp int, desc *t
 
 					var key string
 					if v.Ep >= 0 && v.Ep < int64(ret) {
-						key, err = strconv.Unquote(s[v.Iv-1 : ret])
+						key, err = unquoteJSON(s[v.Iv-1 : ret])
 						if err != nil {
 							return
 						}
@@ -273,7 +284,7 @@ func (self *BinaryConv) doRecurse(ctx context.Context, s string, jp int, desc *t
 
 					var key string
 					if v.Ep >= 0 && v.Ep < int64(ret) {
-						key, err = strconv.Unquote(s[v.Iv-1 : ret])
+						key, err = unquoteJSON(s[v.Iv-1 : ret])
 						if err != nil {
 							return
 						}
